@@ -19,6 +19,7 @@ type modelState struct {
 	symbolicMapOrder bool
 	expectPanic      []string
 	observe          []string
+	observeVals      []obsEntry
 	// digest universe
 	universe    []universeEntry
 	fakeDigests int
@@ -26,6 +27,11 @@ type modelState struct {
 	lastNow *Term
 	// misc per-path state that models keep; reset at the start of every path
 	perPath map[string]interface{}
+}
+
+type obsEntry struct {
+	name string
+	v    Value
 }
 
 var models = map[string]modelFn{}
@@ -270,7 +276,15 @@ func registerAPIModels() {
 		return nil
 	}
 	apiModels["verifObserve"] = func(it *Interp, fr *frame, fn *ssa.Function, args []Value) Value {
-		it.mstate.observe = append(it.mstate.observe, argStr(args[0])+"="+observeString(args[1]))
+		v := args[1]
+		if i, ok := v.(Iface); ok {
+			v = i.v
+		}
+		if s, ok := v.(Str); ok {
+			v = s.force()
+		}
+		it.mstate.observe = append(it.mstate.observe, argStr(args[0])+"="+observeString(v))
+		it.mstate.observeVals = append(it.mstate.observeVals, obsEntry{argStr(args[0]), v})
 		return nil
 	}
 	apiModels["verifMapOrder"] = func(it *Interp, fr *frame, fn *ssa.Function, args []Value) Value {
